@@ -112,10 +112,17 @@ def random_history(rng, profile="alloc", length=40):
     mel_keys = [60, 61, 62, 64]
     perc_keys = [35, 36, 37, 38]
     total_us = 0
+    perc_chans = [9]
     def key_for(ch):
         if profile == "bank":
             return rng.choice([0, 1, 2, 5, 35, 36, 40, 127])
-        return rng.choice(perc_keys if ch == 9 else mel_keys)
+        return rng.choice(perc_keys if ch in perc_chans else mel_keys)
+    # input dimension "short percussion hits": about a third of the allocator histories contain bursts of drum notes
+    # released 0..29 ms after their note-on (see drum_burst), some of them with MIDI channel 1 as XG / GS drum channel
+    drummy = profile == "alloc" and rng.random() < 0.3
+    if drummy and rng.random() < 0.5:
+        h += perc_channel_setup(rng, 1, dev)
+        perc_chans.append(1)
     if profile == "bank" and rng.random() < 0.4:
         # XG SFX kits are percussion banks 128 + program: only a WOPN file can carry them (the bank API stops at LSB 127).
         # SFX kit 0 is the fallback of a missing / blank SFX kit; drum kit 0 only comes after it.
@@ -147,7 +154,9 @@ def random_history(rng, profile="alloc", length=40):
     for _ in range(length):
         ch = rng.choice(chans)
         r = rng.random()
-        if profile == "alloc":
+        if profile == "alloc" and drummy and rng.random() < 0.08:
+            h += drum_burst(rng, rng.choice(perc_chans), perc_keys)
+        elif profile == "alloc":
             if r < 0.30: h.append({"e": "NoteOn", "ch": ch, "k": key_for(ch), "v": rng.choice([100, 100, 100, 1, 127, 0])})
             elif r < 0.45: h.append({"e": "NoteOff", "ch": ch, "k": key_for(ch)})
             elif r < 0.55: h.append({"e": "CC", "ch": ch, "n": 64, "v": rng.choice([0, 127, 63, 64])})
@@ -204,7 +213,171 @@ def random_history(rng, profile="alloc", length=40):
             elif r < 0.94: h.append({"e": "SetDevId", "v": rng.choice([16, 127, 255])})
             elif r < 0.97: h.append({"e": "Reset"})
             else: h.append({"e": "CC", "ch": ch, "n": 66, "v": rng.choice([0, 127])})
+    return avoid_life_boundary(h) if drummy else h
+
+# ---------------------------------------------------------------- short percussion hits (C05: 30 ms minimum life)
+def ms_frames(ms, rate=44100):
+    """Frames of `ms` milliseconds of audio (at least one)."""
+    return max(1, (ms * rate) // 1000)
+
+def gs_reset(dev):
+    body = [0x40, 0x00, 0x7F, 0x00]
+    return [0xF0, 0x41, 0x10 + dev, 0x42, 0x12] + body + [roland_sum(body), 0xF7]
+
+GS_PART_OF_CHANNEL = {9: 0, 0: 1, 1: 2, 2: 3, 3: 4, 4: 5, 5: 6, 6: 7, 7: 8, 8: 9, 10: 10, 11: 11, 12: 12, 13: 13, 14: 14, 15: 15}
+def gs_drum_part(dev, ch, v=1):
+    body = [0x40, 0x10 + GS_PART_OF_CHANNEL[ch], 0x15, v]
+    return [0xF0, 0x41, 0x10 + dev, 0x42, 0x12] + body + [roland_sum(body), 0xF7]
+
+def perc_channel_setup(rng, ch, dev=0, kind=None):
+    """Commands that turn MIDI channel `ch` into a percussion channel: XG (bank MSB 127 / 126) or GS (drum part SysEx)."""
+    kind = rng.randrange(4) if kind is None else kind
+    if kind == 0: return [{"e": "CC", "ch": ch, "n": 0, "v": 127}]
+    if kind == 1: return [{"e": "CC", "ch": ch, "n": 0, "v": 126}]                       # SFX kit: falls back to drum kit 0
+    if kind == 2: return [{"e": "SysEx", "b": gs_reset(dev)}, {"e": "SysEx", "b": gs_drum_part(dev, ch, rng.choice([1, 2]))}]
+    return [{"e": "CC", "ch": ch, "n": 0, "v": 127}, {"e": "CC", "ch": ch, "n": 32, "v": 0}]
+
+def drum_burst(rng, ch, keys):
+    """One burst of short percussion hits on MIDI channel ch: every note is released after 0..29 ms of generated audio
+    (0 = no Gen step between note-on and note-off), alone, in sequence, overlapping or re-struck during its extended life;
+    Gen steps of 1..40 ms in between and after."""
+    def on(k): return {"e": "NoteOn", "ch": ch, "k": k, "v": rng.choice([100, 100, 127, 1])}
+    def off(k): return {"e": "NoteOff", "ch": ch, "k": k} if rng.random() < 0.85 else {"e": "NoteOn", "ch": ch, "k": k, "v": 0}
+    def gen(lo, hi): return [{"e": "Gen", "fr": ms_frames(rng.randint(lo, hi))}]
+    def hold(): return gen(1, 29) if rng.random() < 0.55 else []
+    k1, k2 = rng.sample(keys, 2)
+    kind = rng.randrange(5)
+    if kind == 0:                                    # one hit
+        b = [on(k1)] + hold() + [off(k1)]
+    elif kind == 1:                                  # two hits in sequence (same or other key), 1..40 ms apart
+        k = rng.choice([k1, k2])
+        b = [on(k1)] + hold() + [off(k1)] + gen(1, 40) + [on(k)] + hold() + [off(k)]
+    elif kind == 2:                                  # two overlapping hits a few ms apart
+        b = [on(k1)] + gen(1, 12) + [on(k2)] + hold() + [off(k1)] + (gen(1, 12) if rng.random() < 0.5 else []) + [off(k2)]
+    elif kind == 3:                                  # re-struck while the first instance is on its extended life time
+        b = [on(k1), off(k1)] + (gen(1, 25) if rng.random() < 0.7 else []) + [on(k1)] + hold() + [off(k1)]
+    else:                                            # a roll: 3..5 hits, each released at once, a few ms apart
+        b = []
+        for _ in range(rng.randint(3, 5)):
+            k = rng.choice(keys)
+            b += [on(k), off(k)] + gen(1, 15)
+    if rng.random() < 0.8:
+        b += gen(1, 40)
+    return b
+
+def drum_history(rng, length=8):
+    """History made mostly of short percussion hits on channel 9 and on an XG / GS percussion channel (MIDI channel 1),
+    interleaved with Gen steps of 1..40 ms, a melodic note, pedals and the all-notes-off controllers."""
+    dev = rng.randrange(16) if rng.random() < 0.2 else 0
+    init = {"e": "Init", "rate": 44100, "chips": 1, "lim": rng.choice([2, 3, 3, 4, 6]), "mch": [0, 1, 9],
+            "arp": 1 if rng.random() < 0.2 else 0, "alloc": rng.choice([-1, 0, 1, 2]), "banks": ALLOC_BANKS, "devid": dev}
+    h = [init]
+    pcs = [9]
+    if rng.random() < 0.6:
+        h += perc_channel_setup(rng, 1, dev)
+        pcs = [9, 1, 1]
+    keys = [35, 36, 38]           # 37 is blank in ALLOC_BANKS
+    for _ in range(length):
+        r = rng.random()
+        pc = rng.choice(pcs)
+        if r < 0.55: h += drum_burst(rng, pc, keys)
+        elif r < 0.67: h.append({"e": "Gen", "fr": ms_frames(rng.randint(1, 40))})
+        elif r < 0.74: h.append({"e": "NoteOn", "ch": 0, "k": rng.choice([60, 61]), "v": 100})
+        elif r < 0.79: h.append({"e": "NoteOff", "ch": 0, "k": rng.choice([60, 61])})
+        elif r < 0.85: h.append({"e": "CC", "ch": rng.choice([0, pc]), "n": rng.choice([64, 64, 66]), "v": rng.choice([0, 127])})
+        elif r < 0.89: h.append({"e": "CC", "ch": pc, "n": rng.choice([120, 123, 121]), "v": 0})
+        elif r < 0.92: h.append({"e": "NoteOn", "ch": pc, "k": rng.choice(keys + [37]), "v": 100})      # a drum key that stays down
+        elif r < 0.94: h.append({"e": "Panic"})
+        elif r < 0.96: h.append({"e": "ResetState"})
+        elif r < 0.98: h.append({"e": "Patch", "ch": pc, "p": rng.choice([0, 1])})
+        else: h.append({"e": "Gen", "fr": rng.choice([4000, 50000])})
     return h
+
+# exhaustive short drum histories: every sequence over two drum keys (on / off) and a short and a long Gen step
+def drum_alphabet(ch):
+    return ([{"e": "NoteOn", "ch": ch, "k": 35, "v": 100}, {"e": "NoteOff", "ch": ch, "k": 35},
+             {"e": "NoteOn", "ch": ch, "k": 36, "v": 100}, {"e": "NoteOff", "ch": ch, "k": 36},
+             {"e": "Gen", "fr": 220}, {"e": "Gen", "fr": 1400}])
+
+def exhaustive_drum_histories(depth, ch=9, setup=None, lim=3):
+    """All sequences of exactly `depth` letters of drum_alphabet(ch) that start with the note-on of key 35 (the two keys are
+    interchangeable up to their instrument), release only keys struck before, have no two Gen steps in a row and do not end
+    with a Gen step (settle() appends the final one)."""
+    al = drum_alphabet(ch)
+    init = {"e": "Init", "rate": 44100, "chips": 1, "lim": lim, "mch": [0, 1, 9], "arp": 0, "alloc": -1, "banks": ALLOC_BANKS}
+    pre = [init] + (setup or [])
+    def rec(seq, struck):
+        if len(seq) == depth:
+            yield pre + [al[i] for i in seq]
+            return
+        for i in range(len(al)):
+            if not seq and i != 0: continue
+            if i in (1, 3) and (i - 1) not in struck: continue
+            if i >= 4 and (len(seq) == depth - 1 or (seq and seq[-1] >= 4)): continue
+            yield from rec(seq + [i], struck | {i})
+    yield from rec([], frozenset())
+
+# the drum alphabet of spec/SynthMC.tla (DrumAlphabet, same order): behaviours simulated by TLC are mapped through this
+MC_DRUM_ALPHABET = (
+    [{"e": "NoteOn", "ch": 9, "k": 35, "v": 100}, {"e": "NoteOff", "ch": 9, "k": 35},
+     {"e": "NoteOn", "ch": 9, "k": 36, "v": 100}, {"e": "NoteOff", "ch": 9, "k": 36},
+     {"e": "Gen", "fr": 220}, {"e": "Gen", "fr": 660}, {"e": "Gen", "fr": 1400},
+     {"e": "CC", "ch": 0, "n": 0, "v": 127}, {"e": "NoteOn", "ch": 0, "k": 35, "v": 100}, {"e": "NoteOff", "ch": 0, "k": 35}]
+)
+
+LIFE_MARGIN = 4     # frames
+
+def avoid_life_boundary(h):
+    """The library counts the 30 ms life of a percussion note down in doubles, once per period of opn2_generate(), and the
+    time it hands to TickIterators() can run a frame ahead of the audio it generated (setup.carry: 308 / 44100.0 * 44100.0 is
+    below 308, so one more period of 1 / 44100 s is ticked); the models count frames in ns / us.  A history in which the audio
+    generated since some note-on adds up to 30 ms +- LIFE_MARGIN frames at the end of a Gen step would be decided by that
+    rounding, not by the property: such a Gen step is made a few frames longer."""
+    rate = h[0].get("rate", 44100)
+    life = (30 * rate + 999) // 1000
+    out = []
+    ages = []
+    for c in h:
+        if c["e"] == "NoteOn" and c["v"] > 0:
+            ages.append(0)
+        elif c["e"] == "Gen":
+            fr = c["fr"]
+            while any(life - LIFE_MARGIN <= a + fr <= life + LIFE_MARGIN for a in ages):
+                fr += 1
+            if fr != c["fr"]:
+                c = dict(c); c["fr"] = fr
+            ages = [a + fr for a in ages if a + fr < life]
+        out.append(c)
+    return out
+
+def drain(h, drain_frames=3000):
+    """Drain: every key that may still be down is released, the pedals are lifted and >= 60 ms are generated (the last command
+    carries "drain":1), so that the no-stuck-note clause of C05 is evaluated at the end of the history."""
+    out = list(h)
+    down = []
+    ped, sos = set(), set()
+    for c in h:
+        e = c["e"]
+        if e == "NoteOn" and c["v"] > 0:
+            if (c["ch"], c["k"]) not in down: down.append((c["ch"], c["k"]))
+        elif e == "NoteOff" or e == "NoteOn":
+            if (c["ch"], c["k"]) in down: down.remove((c["ch"], c["k"]))
+        elif e == "CC" and c["n"] == 64:
+            (ped.add if c["v"] >= 64 else ped.discard)(c["ch"])
+        elif e == "CC" and c["n"] == 66:
+            (sos.add if c["v"] >= 64 else sos.discard)(c["ch"])
+    for (ch, k) in down:
+        out.append({"e": "NoteOff", "ch": ch, "k": k})
+    for ch in sorted(ped):
+        out.append({"e": "CC", "ch": ch, "n": 64, "v": 0})
+    for ch in sorted(sos):
+        out.append({"e": "CC", "ch": ch, "n": 66, "v": 0})
+    out.append({"e": "Gen", "fr": drain_frames, "drain": 1})
+    return out
+
+def settle(h):
+    """Finish a history so that the end-of-history clauses of C05 are decided on it (boundary-free Gen steps + Drain)."""
+    return drain(avoid_life_boundary(h))
 
 # small alphabet of the exhaustive enumeration (2 MIDI channels, 3 keys, small chip)
 SMALL_ALPHABET = (
